@@ -7,7 +7,7 @@
    value is as a function of the object's mask and contents -- is universally quantified everywhere.
    [faithful] is the policy of /repo, [finding_class] the recorded finding D8. *)
 From Coq Require Import ZArith List Bool.
-From PAV Require Import Base.Res Model.C11 Model.C11g Model.C11s Proofs.C11 Proofs.C11g Proofs.C11s.
+From PAV Require Import Base.Res Model.C11 Model.C11g Model.C11s Model.C11r Proofs.C11 Proofs.C11g Proofs.C11s Proofs.C11r.
 Import ListNotations.
 
 (* ---- PART A: histories of constructions, derivations, reads and queries -------------------------------------- *)
@@ -280,6 +280,46 @@ Example C11_shared_arguments_nontrivial :
   /\ hobservations false hist_share = vobservations hist_share.
 Proof. vm_compute. split; reflexivity. Qed.
 
+(* ---- PART F: re-masking chains on a dataset with a noise covariance matrix (Model/C11r.v) ------------------------------------ *)
+
+(* [robservations false] is the machine of Imaging.apply_mask (dataset objects with a reference to the dataset they go back to, the
+   matrix reduced with np.delete, which can raise); [sobservations] the value semantics: a dataset is (the caller's data array and
+   covariance matrix, its own mask).  For EVERY history of apply_mask calls on any of the datasets made so far (a then b: larger,
+   smaller, disjoint, all-false ...) and looks at them, every dataset reports the data and the matrix of the pixels of ITS OWN mask *)
+Theorem C11_remask_reports_own_contents : forall (data0 : arr) (cov0 : option (list arr)) (ops : list rop),
+  wf_cov (length data0) cov0 = true -> robservations false data0 cov0 ops = sobservations data0 cov0 ops.
+Proof. exact remask_pure. Qed.
+
+(* history independence: masking with b after ANY history gives what masking the fresh dataset with b gives (or the step is
+   ill-formed: no such dataset / a mask of another shape) *)
+Theorem C11_remask_history_free : forall (data0 : arr) (cov0 : option (list arr)) (ops : list rop) (d : nat) (b : list bool),
+  wf_cov (length data0) cov0 = true ->
+  last (robservations false data0 cov0 (ops ++ [RMask d b])) RBad = view data0 cov0 b
+  \/ last (robservations false data0 cov0 (ops ++ [RMask d b])) RBad = RBad.
+Proof. exact remask_history_free. Qed.
+
+(* the correspondence check of a KRemask run accepts exactly the runs the specification accepts *)
+Theorem C11_remask_check_is_spec : forall data0 cov0 ops out,
+  remask_agree data0 cov0 ops out = remask_spec_ok data0 cov0 ops out.
+Proof. exact remask_check_is_spec. Qed.
+
+(* refutation of the variant that reduces the matrix of `self` (the already reduced matrix of a masked dataset; found by the
+   independent campaign): a then a larger b raises IndexError; a then a smaller b yields a 1x1 matrix for a dataset of 2 pixels *)
+Theorem C11_remask_from_reduced_matrix_refuted :
+  robservations true w_data w_cov w_h1 <> sobservations w_data w_cov w_h1
+  /\ robservations true w_data w_cov w_h2 <> sobservations w_data w_cov w_h2
+  /\ nth 1 (robservations true w_data w_cov w_h1) RBad = RRaise
+  /\ nth 1 (robservations true w_data w_cov w_h2) RBad = ROk [12; 13]%Z (Some [[16]%Z])
+  /\ nth 1 (sobservations w_data w_cov w_h2) RBad = ROk [12; 13]%Z (Some [[11; 12]; [15; 16]]%Z).
+Proof. exact remask_from_reduced_matrix_refuted. Qed.
+
+(* non-vacuity: a well-formed matrix, a history with a re-masking, and what it reports *)
+Example C11_remask_nonvacuous :
+  wf_cov (length w_data) w_cov = true
+  /\ robservations false w_data w_cov w_h2 = [ROk [11; 12; 13]%Z (Some [[6; 7; 8]; [10; 11; 12]; [14; 15; 16]]%Z);
+                                               ROk [12; 13]%Z (Some [[11; 12]; [15; 16]]%Z)].
+Proof. split; vm_compute; reflexivity. Qed.
+
 Print Assumptions C11_discipline_implies_purity.
 Print Assumptions C11_inputs_never_modified.
 Print Assumptions C11_effect_summaries_are_sound.
@@ -321,3 +361,7 @@ Print Assumptions C11_default_instances_never_filled.
 Print Assumptions C11_shared_arguments_check_is_spec.
 Print Assumptions C11_apply_over_sampling_in_place_refuted_default.
 Print Assumptions C11_apply_over_sampling_in_place_refuted_shared_argument.
+Print Assumptions C11_remask_reports_own_contents.
+Print Assumptions C11_remask_history_free.
+Print Assumptions C11_remask_check_is_spec.
+Print Assumptions C11_remask_from_reduced_matrix_refuted.
